@@ -24,12 +24,12 @@ P = {
  "C03": (True, "connection-effect (who-may-touch) rule over all uses of the connection value, must-pass 'wait out the deadline' on every exit, interval evaluation of the deadline, guard dominance on transport thresholds (go/ssa)",
          "Decides for every input and pacing: before a positive match no code path in the handler or in any WrapConnection implementation (computed from the interface) can write to, close, re-deadline or hand away the client connection — its only uses are observers, SetDeadline, Read, drain into io.Discard and the offer to WrapConnection; the wrapped connection is only returned with a nil error or, for obfs4, handed to the handshake after the mark matched; "
          "every return after the deadline was set is preceded on all paths by a drain to the deadline, a sleep until it, a read error or Proxy; the deadline precedes the first read and is now+d with d in [5 s,10 s) by interval evaluation; obfs4 says not-transport only at 8192 bytes; the loop removes a transport only on ErrNotTransport. "
-         "Wall-clock behaviour, the vendored obfs4 handshake after a mark match and kernel-level ACKs are not decided.",
+         "Wall-clock behaviour, the vendored obfs4 handshake after a mark match and kernel-level ACKs are not decided. Also decided: the deadline of an unidentified connection is set exactly once, and before identification every wrapping transport can return only ErrTryAgain / ErrNotTransport (possibly wrapped) or an error class of the reviewed per-transport table (error-class analysis over returns, %w wrapping, repository callees and interface implementations).",
          "4/C03"),
  "C04": (True, "who-may-mutate over the receive buffer, must-pass append, buffer-effect summaries with path-sensitive reachability to retry errors, constant evaluation of the prefix table (AST + go/types), value-flow of the wrapped connection (go/ssa)",
          "Decides for every segmentation: the handler's receive buffer is append-only (Write(buf[:n]) of the same read, must-pass before transports are consulted, no other mutator or escape) and the same buffer is offered each time; in every WrapConnection implementation and its callees no path that consumed from or wrote to the buffer can return ErrTryAgain/ErrNotTransport (callee summaries 'mutates only when returning nil'); "
          "every default prefix satisfies Offset == len(StaticMatch) and MinLen == MaxLen == Offset + tag, tag slices are dominated by the matching length tests and exactly prefix+tag is consumed; success returns PrependToConn(conn, data) which reads buffered bytes first, PrefixConn overrides only Read; a match clears the deadline on the wrapped connection, marks the returned registration active and hands the wrapped connection to Proxy. "
-         "Byte-exact delivery under concrete segmentations and obfs4's own framing are not decided.",
+         "Byte-exact delivery under concrete segmentations and obfs4's own framing are not decided. Also decided: the classification read is a plain Read (no per-call minimum such as io.ReadAtLeast / ReadFull / bufio) and every connection prunes its own freshly built candidate-transport map.",
          "4/C04"),
  "C05": (True, "must-pass / reachability path rules with nil-fact path sensitivity on go/ssa (io.Reader contract, defer registration, pairing)",
          "Decides on every path of halfPipe/Proxy: data returned with a read error is written before the loop exits; the written slice is the read prefix and counters use the write count; the loop continues only after a full, error-free write; "
@@ -39,12 +39,12 @@ P = {
  "C06": (True, "single-resolution count, value-flow of the returned literal, guard dominance of the policy tests and their polarity, must-pass store-before-valid, who-may-write (Covert), reviewed dial-site table (go/ssa)",
          "Decides for every covert string and configuration: the guard resolves at most once and every non-empty result is JoinHostPort of that one resolution's address, dominated by the not-blocklisted edges of the subnet test on that same address and of the domain test on the resolved host, a 16-bit port parse and a successful resolution; the subnet test consults allowlist/blocklist with the right polarity; "
          "no path reaches AddRegistration without storing that literal into reg.Covert and passing its non-empty test; Covert has exactly the two reviewed writers; the proxy dials the stored string verbatim and no other dial site in station code takes a value derived from a registration's covert or original message. "
-         "Textual address forms and subnet arithmetic are not decided.",
+         "Textual address forms and subnet arithmetic are not decided. Also decided: the guard and everything it calls keep no state (no field / map / global / channel write), so its answer depends on the current policy only.",
          "4/C06"),
  "C07": (True, "guard dominance and edge-reachability of every admission condition, must-pass probe, value checks on the shared wrapper, typed error discipline (go/ssa)",
          "Decides the 'only if' direction for every input and configuration: the validate/announce step is dominated by ValidateRegistration (true, nil), a non-empty checked covert, and is unreachable from the live-phantom edge, from the duplicate edge and (detector source) from the blocklisted-phantom edge; the probe is sent only for non-prescanned IPv4 phantoms after the covert check and cannot be bypassed for them; "
          "ValidateRegistration rejects each incomplete field, unknown transports and (non-detector) blocklisted phantoms; per-family construction is gated by client support, station flag and an IPv4 registrant; an IPv6 registrant with an IPv4 phantom never yields a registration; NewRegistration succeeds only if every derivation returned no error; sharing is gated, after the probe, at most once, marked pre-scanned/DetectorPrescan and suppressed for the IPv6 twin. "
-         "Completeness (the 'if' direction) and the meaning of the predicates are not decided.",
+         "Completeness (the 'if' direction) and the meaning of the predicates are not decided. Also decided: the manager-level PhantomIsLive returns, on every path, the tester's own verdict for the same address and port.",
          "4/C07"),
  "C08": (True, "value-flow key agreement, must-pass pairing, finite predicate abstraction (truth table) of the sweep condition, constant tables (go/ssa)",
          "Decides: the timeout map is keyed by the same function of (phantom, transport identifier) as the registration map at insertion and activation (so each tracked registration has its own record for every history of secrets/transports/families); "
